@@ -14,8 +14,19 @@ LITS = ['0', '1', '7', '42']
 STRS = ['"s"', '"M0"', '"a,b"', '"p0"', '"("', "'c'", "','", '"q\\"r"']
 
 
+LEVELS = {
+    'object': {'self-ref'},
+    'plain-fn': {'fn', 'nested-args'},
+    'full': {'fn', 'self-ref', 'stringify', 'paste', 'variadic', 'va_opt', 'literals', 'empty-arg', 'paren-comma', 'badargc', 'undef', 'pushpop', 'stringify-any', 'paste-any', 'nested-args'},
+}
+
+
 def gen_program(rng, level='full', nmacros=None):
-    """level: 'object' (object-like only, no # or ## or literals), 'plain-fn' (function-like without # ## variadics, no self/mutual reference), 'full'."""
+    """level: a name in LEVELS or a set of features:
+       fn (function-like macros), self-ref (bodies may mention any macro incl. themselves and later ones; otherwise only earlier ones), stringify, paste, variadic, va_opt,
+       literals, empty-arg, paren-comma, badargc (wrong argument count), undef, pushpop; stringify-any / paste-any lift the restrictions that keep # and ## inside
+       the shapes on which the implementation conforms."""
+    F = LEVELS[level] if isinstance(level, str) else set(level)
     n = nmacros or rng.randrange(1, 6)
     lines = []
     defined = {}
@@ -26,47 +37,57 @@ def gen_program(rng, level='full', nmacros=None):
             r = rng.random()
             if params and r < 0.35:
                 p = rng.choice(params + (['__VA_ARGS__'] if variadic else []))
-                if level == 'full' and rng.random() < 0.2:
+                if 'stringify' in F and rng.random() < 0.25 and (p != '__VA_ARGS__' or 'stringify-any' in F):
                     toks.append('#')
+                    strfy.add(p)
                 toks.append(p)
             elif r < 0.55 and depth_names:
                 m = rng.choice(depth_names)
                 toks.append(m)
                 d = defined.get(m)
                 if d is not None and d[0] is not None and rng.random() < 0.8:
-                    toks += call_args(len(d[0]), d[1], params or [], depth_names, 1)
+                    toks += call_args(len(d[0]), d[1], params or [], depth_names, 1, d[2])
             elif r < 0.65:
                 toks.append(rng.choice(PLAIN))
             elif r < 0.75:
                 toks.append(rng.choice(LITS))
-            elif r < 0.85 and level == 'full':
+            elif r < 0.85 and 'literals' in F:
                 toks.append(rng.choice(STRS))
-            elif r < 0.9 and level == 'full' and toks and toks[-1] not in ('#', '##') and params:
-                toks.append('##')
-                toks.append(rng.choice(params + PLAIN + LITS))
-            elif r < 0.93 and level == 'full' and variadic:
+            elif r < 0.9 and 'paste' in F and toks and toks[-1] not in ('#', '##', ')') and params and (len(toks) < 2 or toks[-2] != '#'):
+                if 'paste-any' in F:
+                    toks.append('##')
+                    toks.append(rng.choice(params + PLAIN + LITS))
+                elif toks[-1] in PLAIN:
+                    # identifier ## identifier-ish: always a valid identifier
+                    toks.append('##')
+                    toks.append(rng.choice(PLAIN + LITS))
+            elif r < 0.93 and 'va_opt' in F and variadic:
                 toks += ['__VA_OPT__', '('] + [rng.choice(PLAIN + LITS + ['__VA_ARGS__', ','] + params) for _ in range(rng.randrange(0, 3))] + [')']
             else:
                 toks.append(rng.choice(PUNCT))
         return toks
 
-    def call_args(nparams, variadic, inner_params, names, depth):
+    def call_args(nparams, variadic, inner_params, names, depth, simple=()):
         nargs = nparams
         if variadic:
             nargs = nparams + rng.choice([0, 0, 1, 2])
-        elif level == 'full' and rng.random() < 0.03:
+        elif 'badargc' in F and rng.random() < 0.03:
             nargs = max(0, nparams + rng.choice([-1, 1]))
         out = ['(']
         for i in range(nargs):
             if i:
                 out.append(',')
-            out += arg_tokens(inner_params, names, depth)
+            if i in simple and 'stringify-any' not in F:
+                # operand of #: one to three plain tokens (macro names included: they must NOT be expanded), never empty, no commas or parentheses
+                out += [rng.choice(PLAIN + LITS + [m for m in names if defined.get(m) and defined[m][3]] + (STRS if 'literals' in F else [])) for _ in range(rng.randrange(1, 4))]
+            else:
+                out += arg_tokens(inner_params, names, depth)
         out.append(')')
         return out
 
     def arg_tokens(inner_params, names, depth):
         r = rng.random()
-        if r < 0.08 and level == 'full':
+        if r < 0.08 and 'empty-arg' in F:
             return []                                   # empty argument
         toks = []
         for _ in range(rng.randrange(1, 4)):
@@ -75,13 +96,16 @@ def gen_program(rng, level='full', nmacros=None):
                 toks.append(rng.choice(inner_params))
             elif r < 0.5 and names and depth < 3:
                 m = rng.choice(names)
-                toks.append(m)
                 d = defined.get(m)
+                if 'nested-args' not in F and (d is None or d[0] is not None or not d[3]):
+                    toks.append(rng.choice(PLAIN))          # only object-like macros with a non-empty body free of macro names inside an argument
+                    continue
+                toks.append(m)
                 if d is not None and d[0] is not None and rng.random() < 0.85:
-                    toks += call_args(len(d[0]), d[1], inner_params, names, depth + 1)
-            elif r < 0.6 and level == 'full':
+                    toks += call_args(len(d[0]), d[1], inner_params, names, depth + 1, d[2])
+            elif r < 0.6 and 'paren-comma' in F:
                 toks += ['('] + [rng.choice(PLAIN + LITS), ',', rng.choice(PLAIN + LITS)] + [')']      # parenthesised comma
-            elif r < 0.7 and level == 'full':
+            elif r < 0.7 and 'literals' in F:
                 toks.append(rng.choice(STRS))
             elif r < 0.85:
                 toks.append(rng.choice(PLAIN))
@@ -92,29 +116,29 @@ def gen_program(rng, level='full', nmacros=None):
     names = []
     for i in range(n):
         name = MACROS[i]
-        if level == 'object':
+        if 'fn' not in F or rng.random() < 0.45:
             params, variadic = None, False
         else:
-            if rng.random() < 0.45:
-                params, variadic = None, False
-            else:
-                params = ['p%d' % k for k in range(rng.randrange(0, 3))]
-                variadic = level == 'full' and rng.random() < 0.25
-        # which macro names a body may mention: 'full'/'object' any (self and forward references included), 'plain-fn' only earlier ones
-        usable = MACROS[:n] if level in ('full', 'object') else names[:]
+            params = ['p%d' % k for k in range(rng.randrange(0, 3))]
+            variadic = 'variadic' in F and rng.random() < 0.25
+        # which macro names a body may mention: with self-ref any (self and forward references included), otherwise only earlier ones
+        usable = MACROS[:n] if 'self-ref' in F else names[:]
+        strfy = set()
         body = body_tokens(name, params, variadic, usable)
         lines.append(('define', name, params, variadic, body))
-        defined[name] = (params, variadic)
+        leaf = params is None and len(body) > 0 and not any(t in MACROS for t in body)
+        defined[name] = (params, variadic, {params.index(q) for q in strfy if params and q in params}, leaf)
         names.append(name)
         if rng.random() < 0.5:
             lines.append(('use', use_tokens(rng, names, defined, call_args, level)))
-        if level == 'full' and rng.random() < 0.12:
-            k = rng.choice(['undef', 'push', 'pop', 'redef'])
+        kinds = (['undef', 'redef'] if 'undef' in F else []) + (['push', 'pop'] if 'pushpop' in F else [])
+        if kinds and rng.random() < 0.2:
+            k = rng.choice(kinds)
             m = rng.choice(names)
             if k == 'redef':
                 lines.append(('undef', m))
                 lines.append(('define', m, None, False, [rng.choice(PLAIN + LITS)]))
-                defined[m] = (None, False)
+                defined[m] = (None, False, set(), True)
             else:
                 lines.append((k, m))
                 if k == 'undef':
@@ -133,7 +157,7 @@ def use_tokens(rng, names, defined, call_args, level):
             toks.append(m)
             d = defined.get(m)
             if d is not None and d[0] is not None and rng.random() < 0.9:
-                toks += call_args(len(d[0]), d[1], [], names, 1)
+                toks += call_args(len(d[0]), d[1], [], names, 1, d[2])
         elif r < 0.85:
             toks.append(rng.choice(PLAIN + LITS))
         else:
